@@ -235,9 +235,58 @@ def _m_struct_unpack(fmt, data):
     return tuple(res)
 
 
+def _fmt_size(fmt):
+    order, items = _fmt_items(fmt)
+    return None if items is None else sum(_SIZES[c] for c in items)
+
+
+def _m_struct_unpack_from(fmt, buffer, offset=0):
+    if not (_isinstance(buffer, SymBytes) and buffer.is_symbolic()) and not _symbolic(offset):
+        return _struct.unpack_from(fmt, bytes(buffer.concrete()) if _isinstance(buffer, SymBytes) else buffer, offset)
+    n = _fmt_size(fmt)
+    off = conc(offset)
+    cells = SymBytes.of(buffer)
+    if n is None:
+        return _struct.unpack_from(fmt, bytes(SymBytes(cells).concrete()), off)
+    if off < 0:
+        off += _len(cells)
+    if off < 0 or off + n > _len(cells):
+        raise _struct.error("unpack_from requires a buffer of at least %d bytes for unpacking %d bytes at offset %d"
+                            % (off + n, n, off))
+    return _m_struct_unpack(fmt, SymBytes(cells[off:off + n], mutable=False))
+
+
+def _m_struct_iter_unpack(fmt, buffer):
+    if not (_isinstance(buffer, SymBytes) and buffer.is_symbolic()):
+        return _struct.iter_unpack(fmt, bytes(buffer.concrete()) if _isinstance(buffer, SymBytes) else buffer)
+    n = _fmt_size(fmt)
+    cells = SymBytes.of(buffer)
+    if n is None:
+        return _struct.iter_unpack(fmt, bytes(SymBytes(cells).concrete()))
+    if n == 0 or _len(cells) % n:
+        raise _struct.error("iterative unpacking requires a buffer of a multiple of %d bytes" % n)
+    return iter([_m_struct_unpack(fmt, SymBytes(cells[i:i + n], mutable=False)) for i in _range(0, _len(cells), n)])
+
+
+def _m_struct_pack_into(fmt, buffer, offset, *vals):
+    if not any(_isinstance(v, (SymInt, SymBool)) for v in vals) and not _isinstance(buffer, SymBytes):
+        return _struct.pack_into(fmt, buffer, offset, *vals)
+    packed = _m_struct_pack(fmt, *vals)
+    off = conc(offset)
+    if off < 0:
+        off += _len(buffer)
+    if off < 0 or off + _len(packed) > _len(buffer):
+        raise _struct.error("pack_into requires a buffer of at least %d bytes" % (off + _len(packed)))
+    buffer[off:off + _len(packed)] = packed
+    return None
+
+
 MODELS = {
     _struct.pack: _m_struct_pack,
     _struct.unpack: _m_struct_unpack,
+    _struct.unpack_from: _m_struct_unpack_from,
+    _struct.iter_unpack: _m_struct_iter_unpack,
+    _struct.pack_into: _m_struct_pack_into,
     _bytearray: _m_bytearray,
     _bytes: _m_bytes,
     _len: _m_len,
@@ -284,8 +333,11 @@ def call(f, *a, **k):
                 if f.__name__ == "unpack":
                     return _m_struct_unpack(s.format, *a)
                 if f.__name__ == "unpack_from":
-                    off = conc(a[1]) if _len(a) > 1 else conc(k.get("offset", 0))
-                    return _m_struct_unpack(s.format, SymBytes(SymBytes.of(a[0])[off:off + s.size]))
+                    return _m_struct_unpack_from(s.format, a[0], a[1] if _len(a) > 1 else k.get("offset", 0))
+                if f.__name__ == "iter_unpack":
+                    return _m_struct_iter_unpack(s.format, a[0])
+                if f.__name__ == "pack_into":
+                    return _m_struct_pack_into(s.format, *a)
         elif f is _int.from_bytes:
             return _m_from_bytes(*a, **k)
     return f(*a, **k)
